@@ -102,6 +102,18 @@ struct SRun
     s.exited = true;
   }
 
+  // a worker still waiting although the backend has been idle with everything empty `limit` times: which property
+  // that violates depends on what it is waiting for
+  void report_stuck(SW& s, uint64_t idles, char const* family)
+  {
+    char const* prop = "C09";
+    char const* key = "blocked-call-never-resumes-with-idle-backend";
+    if (s.pending_what == "flush_log") { prop = "C06"; key = "flush-never-returns-with-idle-backend"; }
+    else if (s.pending_what == "remove_logger_blocking") { prop = "C17"; key = "remove-logger-blocking-never-returns-with-idle-backend"; }
+    else if (s.pending_what == "init_backtrace" || s.pending_what == "flush_backtrace") { prop = "C08"; key = "control-request-never-accepted-with-idle-backend"; }
+    violation(prop, key, J{}.unum("tid", s.tid).str("op", s.pending_what).unum("backend_idle_cycles_since_call", idles).str("family", family).raw("cfg", world.describe()));
+  }
+
   // Let one parked worker finish its operation: time passes, the backend polls, the worker retries.
   // Same logical progress verdict as drain().
   bool wait_for(SW& s, char const* family, uint64_t limit = 1000)
@@ -115,9 +127,7 @@ struct SRun
       uint64_t idles = g_idle_cycles.load() - s.pending_since_idle;
       if (idles > limit)
       {
-        bool flush = s.w->park_point == qv::FE_FLUSH_WAIT || s.pending_what == "flush_log";
-        violation(flush ? "C06" : "C09", flush ? "flush-never-returns-with-idle-backend" : "blocked-call-never-resumes-with-idle-backend",
-                  J{}.unum("tid", s.tid).str("op", s.pending_what).unum("backend_idle_cycles_since_call", idles).str("family", family).raw("cfg", world.describe()));
+        report_stuck(s, idles, family);
         failed = true;
         return false;
       }
@@ -144,9 +154,7 @@ struct SRun
           uint64_t idles = g_idle_cycles.load() - s->pending_since_idle;
           if (idles > limit)
           {
-            bool flush = s->w->park_point == qv::FE_FLUSH_WAIT || s->pending_what == "flush_log";
-            violation(flush ? "C06" : "C09", flush ? "flush-never-returns-with-idle-backend" : "blocked-call-never-resumes-with-idle-backend",
-                      J{}.unum("tid", s->tid).str("op", s->pending_what).unum("backend_idle_cycles_since_call", idles).str("family", family).raw("cfg", world.describe()));
+            report_stuck(*s, idles, family);
             failed = true;
             return false;
           }
